@@ -1,4 +1,5 @@
 import ScriggoV.Lemmas.Cancel
+import ScriggoV.Lemmas.CancelDispatch
 import ScriggoV.Model.CancelCode
 /-! # C11 — cancelling the run context stops any execution promptly
 
@@ -366,6 +367,153 @@ function value on behalf of native code (`callable.Value`), report the cancellat
 theorem epilogue_for_every_vm :
     watcherCondition = "vm.env.doneChan != nil" ∧ stopCondition = "vm.env.doneChan != nil" ∧
       epilogueCondition = "stop != nil" ∧ epilogueForEveryVM = true := by decide
+
+/-! ### Where the instruction loop reads the flag (`Model/CancelDispatch.lean`)
+
+`Facts.loopHead` above is "a running VM reads the flag before every instruction". The theorems of
+this section say what that fact is needed for, in terms of the control flow of the instruction
+set: between two looks at the flag the VM may only execute a bounded number of instructions, and
+that holds iff no cycle of the control-flow relation (back edges by Goto and Select, calls and
+returns, the iterations of a range statement) avoids the flag test. -/
+
+open Dispatch in
+/-- **C11, bounded run between two looks at the flag.** Whatever the program and whatever the
+environment chooses (conditions, selected cases, range lengths): if the flag is read on the
+dispatch of every instruction class that can move the program counter anywhere but forward in the
+current function (`jump`, `call`, `ret`, `iterate`, `leave`), then with the flag set the VM
+executes fewer instructions than remain in the body of its current function before it stops
+(or ends): the loop is never still running after `bodyLen − pc + 1` turns. -/
+theorem stops_within_body (P : Flow → Bool) (hP : ∀ c, c.forward = false → P c = true)
+    (prog : Prog) : ∀ (chs : List Nat) (s : DState), bodyLen prog s.fn - s.pc < chs.length →
+      ∀ s', runFlag P prog s chs ≠ .running s' := by
+  intro chs
+  induction chs with
+  | nil => intro s h; simp at h
+  | cons ch chs ih =>
+    intro s hlen s'
+    rw [runFlag_cons]
+    unfold dispatch
+    cases hf : fetch prog s with
+    | none => simp
+    | some i =>
+      simp only
+      by_cases hp : P i.cls = true
+      · simp [hp]
+      · have hfw : i.cls.forward = true := by
+          cases hc : i.cls.forward with
+          | true => rfl
+          | false => exact absurd (hP _ hc) hp
+        obtain ⟨s1, he, hfn, hpc, _⟩ := exec_forward (s := s) (ch := ch) hfw
+        have hlt := fetch_lt hf
+        simp only [hp, he]
+        apply ih
+        rw [hfn]
+        simp only [List.length_cons] at hlen
+        omega
+
+-- non-vacuity: a placement on the five classes only; a loop with a condition and a call stops at
+-- the call, after three instructions executed without a look
+example : Dispatch.runFlag (Dispatch.onlyAt [.jump, .call, .ret, .iterate, .leave])
+    [[.plain, .cond, .plain, .call 1, .jump [0]], [.ret]] ⟨0, 0, []⟩ [0, 0, 0, 0, 0, 0] = .stopped ∧
+  Dispatch.unobserved (Dispatch.onlyAt [.jump, .call, .ret, .iterate, .leave])
+    [[.plain, .cond, .plain, .call 1, .jump [0]], [.ret]] ⟨0, 0, []⟩ [0, 0, 0, 0, 0, 0] = 3 := by decide
+
+open Dispatch in
+/-- the test at the head of the loop: nothing at all is executed once the flag is set -/
+theorem head_placement_stops_at_once (prog : Prog) (s : DState) (ch : Nat) (chs : List Nat) :
+    ∀ s', runFlag headPlacement prog s (ch :: chs) ≠ .running s' := by
+  intro s'
+  rw [runFlag_cons]
+  unfold dispatch
+  cases fetch prog s <;> simp [headPlacement]
+
+/-! A placement that misses a cycle never stops it. Each of the four kinds of cycle needs its own
+class: a flag test that sits in one opcode ("every loop jumps back with a Goto") leaves the others
+running for ever. -/
+
+open Dispatch in
+/-- recursion passes no Goto: without a look at calls `func f() { f() }` runs for ever -/
+theorem recursion_never_looks (P : Flow → Bool) (hc : P .call = false) (n : Nat) :
+    ∀ st, runFlag P recLoop ⟨0, 0, st⟩ (List.replicate n 0)
+      = .running ⟨0, 0, List.replicate n (0, 1) ++ st⟩ := by
+  induction n with
+  | zero => intro st; rfl
+  | succ n ih =>
+    intro st
+    rw [List.replicate_succ, runFlag_cons]
+    have : dispatch P recLoop ⟨0, 0, st⟩ 0 = .running ⟨0, 0, (0, 1) :: st⟩ := by
+      simp [dispatch, fetch, recLoop, DInstr.cls, hc, exec]
+    rw [this]
+    simp only
+    rw [ih]
+    congr 2
+    rw [List.replicate_succ']
+    simp
+
+open Dispatch in
+/-- … and so does tail recursion with a straight-line body -/
+theorem tail_recursion_never_looks (P : Flow → Bool) (h1 : P .call = false) (h2 : P .next = false)
+    (n : Nat) :
+    runFlag P tailLoop ⟨0, 0, []⟩ (List.replicate n [0, 0]).flatten = .running ⟨0, 0, []⟩ := by
+  induction n with
+  | zero => rfl
+  | succ n ih =>
+    simp only [List.replicate_succ, List.flatten_cons, List.cons_append, List.nil_append, runFlag_cons]
+    simp [dispatch, fetch, tailLoop, DInstr.cls, exec, h1, h2]
+    exact ih
+
+open Dispatch in
+/-- one long `for range` with a straight-line body passes Range and Continue only: without a look
+at one of them it runs as long as the range has elements -/
+theorem range_never_looks (P : Flow → Bool) (h1 : P .iterate = false) (h2 : P .leave = false)
+    (h3 : P .next = false) (n : Nat) :
+    runFlag P rangeLoop ⟨0, 0, []⟩ (List.replicate n [1, 1, 1]).flatten = .running ⟨0, 0, []⟩ := by
+  induction n with
+  | zero => rfl
+  | succ n ih =>
+    simp only [List.replicate_succ, List.flatten_cons, List.cons_append, List.nil_append, runFlag_cons]
+    simp [dispatch, fetch, rangeLoop, DInstr.cls, exec, h1, h2, h3]
+    exact ih
+
+open Dispatch in
+/-- a `for` loop passes Goto only: a look at calls and ranges alone does not stop it -/
+theorem goto_loop_never_looks (P : Flow → Bool) (h1 : P .jump = false) (h2 : P .next = false)
+    (n : Nat) :
+    runFlag P gotoLoop ⟨0, 0, []⟩ (List.replicate n [0, 0]).flatten = .running ⟨0, 0, []⟩ := by
+  induction n with
+  | zero => rfl
+  | succ n ih =>
+    simp only [List.replicate_succ, List.flatten_cons, List.cons_append, List.nil_append, runFlag_cons]
+    simp [dispatch, fetch, gotoLoop, DInstr.cls, exec, h1, h2, pick]
+    exact ih
+
+-- the flag test in the clause of Goto alone: the `for` loop stops, recursion and the long range do not
+example : Dispatch.runFlag (Dispatch.onlyAt [.jump]) Dispatch.gotoLoop ⟨0, 0, []⟩ [0, 0, 0] = .stopped := by
+  decide
+example (n : Nat) : Dispatch.runFlag (Dispatch.onlyAt [.jump]) Dispatch.recLoop ⟨0, 0, []⟩ (List.replicate n 0)
+    = .running ⟨0, 0, List.replicate n (0, 1) ++ []⟩ := recursion_never_looks _ rfl n []
+example (n : Nat) : Dispatch.runFlag (Dispatch.onlyAt [.jump]) Dispatch.rangeLoop ⟨0, 0, []⟩
+    (List.replicate n [1, 1, 1]).flatten = .running ⟨0, 0, []⟩ := range_never_looks _ rfl rfl rfl n
+
+/-- **generated fact**: the instruction loop of run.go reads the flag on the dispatch of every
+opcode whose clause does anything to the program counter but advance it — assigns `vm.pc`
+(Goto, Select), changes `vm.fn` (CallFunc, CallIndirect, CallMacro, TailCall, Return), runs the
+loop in a nested activation (Range, RangeString) or leaves one (Continue, Break): classes from the
+extracted `opFlow` table, the places of the flag test from `doneCheckSites`. A flag test moved
+from the head of the loop into the clause of one opcode leaves the others unobserved and breaks
+this. -/
+theorem code_observes_every_back_edge :
+    (∀ c : Dispatch.Flow, c.forward = false → placementOfCode c = true) ∧ unobservedBackEdges = [] := by
+  refine ⟨?_, by decide⟩
+  intro c; cases c <;> decide
+
+/-- the instruction loop of the code as it is, with the flag set, never outlasts the body of the
+current function (in fact nothing is executed: `headCheck`; this form survives a flag test that is
+moved to the back edges) -/
+theorem dispatch_stops_code (prog : Dispatch.Prog) (chs : List Nat) (s : Dispatch.DState)
+    (h : Dispatch.bodyLen prog s.fn - s.pc < chs.length) :
+    ∀ s', Dispatch.runFlag placementOfCode prog s chs ≠ .running s' :=
+  stops_within_body placementOfCode code_observes_every_back_edge.1 prog chs s h
 
 /-- `prompt_stop` and `run_returns_ctxErr` for the code as it is -/
 theorem prompt_stop_code (s : Sys) (evs : List Ev) (i : Nat) (v : VM)
